@@ -47,7 +47,11 @@ REGISTRY = {
     },
     "C11": {
         "title": "expiry is exact",
-        "teq": [seq({"seedoff": 11})],
+        "teq": [seq({"seedoff": 11}),
+                {"engine": "crash", "quick": {"n": 1, "points": 10, "ttl": 1, "seedoff": 211}, "thorough": {"tier": "thorough", "ttl": 1, "seedoff": 211}, "oracle": True, "mismatch_is_failure": True, "timeout": 3400,
+                 "nontrivial": lambda case, res: "plan=" in case and res.startswith("ok") and "keys=-" not in res,
+                 "distinct_key": lambda case, res: res,
+                 "what": "crash images of TTL-on workloads that include generations expired on arrival (explicit 1970 timestamps) and never-expiring ones of the same keys: real reopen with TTL on vs Model.Recovery (newest generation chosen first, then dropped if expired, older generations never exposed), plus the window oracle (an expired newest generation means the key is absent)"}],
         "nontrivial_rule": "as C01; expiries are generated at least one hour before or after the wall clock so visibility is decidable; TTL-on configurations carry the expiry clauses",
         "assumptions": ["the 1 ns boundary of the real clock is not decidable by this check (the model fixes > vs >=; comparisons inside the observation window are reported undecided)", "sweeper interleavings and crash points inside recovery are not part of this check (C04/C07 machinery)"],
     },
@@ -95,6 +99,26 @@ REGISTRY = {
         ],
         "nontrivial_rule": "as C02",
         "assumptions": ["as C02"],
+    },
+    "C04": {
+        "title": "recovery is idempotent, restartable and never discards a live record",
+        "teq": [
+            {"engine": "recrash", "quick": {"n": 1, "points": 8}, "thorough": {"tier": "thorough"}, "oracle": True, "mismatch_is_failure": False, "timeout": 3400,
+             "nontrivial": lambda case, res: "level=2" in case and res.startswith("ok") and "keys=-" not in res,
+             "distinct_key": lambda case, res: case.split("plan=")[-1] + res,
+             "what": "crash images of traced workloads (TTL on and off, processes killed without close) are recovered by the real code with recovery's own device writes traced (hook H1); crash points x subsets x tearing INSIDE that recovery give second-level images, each reopened by the real code and by Model.Recovery (must agree); oracle: every second-level image reopens to exactly the contents the first recovery reported; images whose recovery wrote nothing are reopened twice"}],
+        "nontrivial_rule": "a case is one second-level crash image (a crash inside a recovery of a crash image); non-trivial = recovered at least one key; distinct by (first-level plan, inner plan, contents)",
+        "assumptions": ["as C02; more than 1024 coalesced extents in one retirement call are not generated by this engine (finding F1, see DESIGN section 8)"],
+    },
+    "C05": {
+        "title": "each data block has exactly one owner or is free",
+        "teq": [
+            {"engine": "partition", "quick": {"n": 1}, "thorough": {"tier": "thorough"}, "oracle": True, "mismatch_is_failure": True, "timeout": 3400,
+             "nontrivial": lambda case, res: res.startswith("ok") and "keys=-" not in res,
+             "distinct_key": lambda case, res: res,
+             "what": "workloads with mixed 1-5 block extents on 40-96 block devices with immediate reuse; at every quiescent point (flush acknowledged, clean reopen) (a) oracle on the live store: extents in the data area, pairwise disjoint, free pool = exact complement, usage/record counters and the persisted metadata counters equal the live totals; (b) the state Model.Recovery rebuilds from a copy of the file (contents, extents, free-space statistics, file untouched) must equal the live state; finally the device is emptied by deletes and must be one free run again and accept what a fresh device accepts"}],
+        "nontrivial_rule": "a case is one quiescent point of one workload; non-trivial = at least one live key; distinct by 64-bit hash of the state line",
+        "assumptions": ["quiescence = flush() returned Ok on a healthy device (retirements drained)"],
     },
     "C10": {
         "title": "documented v1/v2/v3 layout",
@@ -272,7 +296,8 @@ def run_property(pid, eng, tier, seed, t0):
         # group: one violation per distinct 'why'/engine, first case as the replay
         seen = set()
         for c in concrete:
-            key = (c["engine"], c.get("why", c["kind"]).split(":")[-1])
+            why = c.get("why", c["kind"])
+            key = (c["engine"], " ".join(why.replace(":", " ").split()[:2]))
             if key in seen:
                 continue
             seen.add(key)
